@@ -9,6 +9,7 @@ import Asts.Driver.Watch
 import Asts.Driver.Annot
 import Asts.Driver.Defaults
 import Asts.Driver.Codec
+import Asts.Driver.Patch
 open Asts.Driver
 
 /-- one input line `<case> => <impl observation>`; one output line `<model observation>\t<monitor verdict>\t<branch tag>` -/
@@ -29,6 +30,7 @@ def dispatch (engine : String) (line : String) : String :=
     | "annot" => AnnotDrv.stepAnnot cas obs
     | "defaults" => DefaultsDrv.stepDefaults cas obs
     | "codec" => CodecDrv.stepCodec cas obs
+    | "patch" => stepPatch cas obs
     | _ => "unknown-engine\tok\tbad"
   | _ => "bad-line\tok\tbad"
 
